@@ -229,6 +229,10 @@ fn div_pair(ctx: &mut Ctx, a: &Op, b: &Op, full: bool) {
         if let Some(w) = some(ctx, "BigInt checked_div", &iargs, v) {
             expect_int(ctx, "BigInt checked_div", &iargs, Out::Ret(w), &tq);
         }
+        let v = call(ctx, || num_traits::CheckedDiv::checked_div(x, y));
+        if let Some(w) = some(ctx, "CheckedDiv for BigInt", &iargs, v) {
+            expect_int(ctx, "CheckedDiv for BigInt", &iargs, Out::Ret(w), &tq);
+        }
         let v = call(ctx, || x.checked_div_euclid(y));
         if let Some(w) = some(ctx, "BigInt checked_div_euclid", &iargs, v) {
             expect_int(ctx, "BigInt checked_div_euclid", &iargs, Out::Ret(w), &eq);
@@ -368,6 +372,7 @@ fn zero_divisor(ctx: &mut Ctx) {
             p!("BigInt 5i32/0", 5i32 / zi.clone());
             p!("BigInt -5i64%0", -5i64 % zi.clone());
             n!("BigInt checked_div 0", x.checked_div(&zi));
+            n!("CheckedDiv for BigInt 0", num_traits::CheckedDiv::checked_div(x, &zi));
             n!("BigInt checked_div_euclid 0", x.checked_div_euclid(&zi));
             n!("BigInt checked_rem_euclid 0", x.checked_rem_euclid(&zi));
             n!("BigInt checked_div_rem_euclid 0", CheckedEuclid::checked_div_rem_euclid(x, &zi));
